@@ -33,6 +33,9 @@ package atree
 
 //@ # ---- inline group: insert one level deeper; a first-level group that has outgrown the per-element limit is spilled into its own slab
 //@ func (e *inlineCollisionGroup) Set(storage, address, b, digester, level, hkey, comparator, hip, key, value) (newElem, ks, existing, err)  serves C02 C05 C06 C09 C12
+//@   # the request is handed down unchanged (C02: the routed child / element answers for the caller's key and value)
+//@   before[C02] hkeyElements.Set: arg_recv == e.elements && arg_address == address && arg_level == old(level) + 1 && arg_storage == storage && arg_b == b && arg_digester == digester && arg_comparator == comparator && arg_hip == hip && arg_key == key && arg_value == value
+//@   before[C02] singleElements.Set: arg_recv == e.elements && arg_address == address && arg_level == old(level) + 1 && arg_storage == storage && arg_b == b && arg_digester == digester && arg_comparator == comparator && arg_hip == hip && arg_key == key && arg_value == value
 //@   requires e != nil && wfEls(e.elements) && storage != nil && digester != nil && comparator != nil && key != nil && value != nil && level <= 1000
 //@   assume !inSub(e.elements, e) && valueRoot(key) != e && valueRoot(value) != e because "frame assumption F: a group is not inside the subtree of its own element list; the key / value being stored is not this group"
 //@   ensures err != nil ==> newElem == nil
@@ -83,6 +86,9 @@ package atree
 
 //@ # ---- removal from an inline group: one level deeper; a group left with one plain element collapses to that element
 //@ func (e *inlineCollisionGroup) Remove(storage, digester, level, hkey, comparator, key) (k, v, newElem, err)  serves C02 C05 C12 C18
+//@   # the request is handed down unchanged (C02: the routed child / element answers for the caller's key and value)
+//@   before[C02] hkeyElements.Remove: arg_recv == e.elements && arg_level == old(level) + 1 && arg_storage == storage && arg_digester == digester && arg_comparator == comparator && arg_key == key
+//@   before[C02] singleElements.Remove: arg_recv == e.elements && arg_level == old(level) + 1 && arg_storage == storage && arg_digester == digester && arg_comparator == comparator && arg_key == key
 //@   requires e != nil && wfEls(e.elements) && storage != nil && digester != nil && comparator != nil && level <= 1000
 //@   assume !inSub(e.elements, e) because "frame assumption F: a group is not inside the subtree of its own element list"
 //@   ensures err != nil ==> newElem == nil
@@ -93,6 +99,10 @@ package atree
 
 //@ func (e *inlineCollisionGroup) Get(storage, digester, level, hkey, comparator, key) (k, v, err)  serves C02 C18
 //@   requires e != nil && wfEls(e.elements) && storage != nil && digester != nil && comparator != nil && level <= 1000
+//@   # the group is searched one digest level down, with the digest of that level
+//@   before[C02] Digester.Digest: arg_recv == digester && arg_level == old(level) + 1
+//@   before[C02] elements.Get: arg_recv == e.elements && arg_level == old(level) + 1 &&
+//@        arg_storage == storage && arg_digester == digester && arg_comparator == comparator && arg_key == key
 //@   ensures[C18] err != nil ==> k == nil && v == nil
 //@   modifies alloc
 
@@ -111,7 +121,18 @@ package atree
 //@   modifies alloc
 
 //@ # ---- external group: the group lives in its own unlimited-size slab; the element is a fixed-size reference to it
+//@ func (e *externalCollisionGroup) Get(storage, digester, level, hkey, comparator, key) (k, v, err)  serves C02 C18
+//@   requires e != nil && storage != nil && digester != nil && level <= 1000
+//@   before[C02] Digester.Digest: arg_recv == digester && arg_level == old(level) + 1
+//@   before[C02] MapSlab.Get: arg_recv == sto[e.slabID] && arg_level == old(level) + 1 &&
+//@        arg_storage == storage && arg_digester == digester && arg_comparator == comparator && arg_key == key
+//@   ensures[C18] err != nil ==> k == nil && v == nil
+//@   modifies alloc
+
 //@ func (e *externalCollisionGroup) Set(storage, address, b, digester, level, hkey, comparator, hip, key, value) (newElem, ks, existing, err)  serves C02 C06 C12 C18
+//@   # the request is handed down unchanged (C02: the routed child / element answers for the caller's key and value)
+//@   before[C02] MapDataSlab.Set: arg_recv == sto[e.slabID] && arg_level == old(level) + 1 && arg_storage == storage && arg_b == b && arg_digester == digester && arg_comparator == comparator && arg_hip == hip && arg_key == key && arg_value == value
+//@   before[C02] MapMetaDataSlab.Set: arg_recv == sto[e.slabID] && arg_level == old(level) + 1 && arg_storage == storage && arg_b == b && arg_digester == digester && arg_comparator == comparator && arg_hip == hip && arg_key == key && arg_value == value
 //@   requires e != nil && storage != nil && digester != nil && comparator != nil && key != nil && value != nil && level <= 1000
 //@   assume (is(sto[e.slabID], *MapDataSlab) ==> wfMDSG(as(sto[e.slabID], *MapDataSlab)) && as(sto[e.slabID], *MapDataSlab).header.size <= 4000000000) &&
 //@        (is(sto[e.slabID], *MapMetaDataSlab) ==> false) && !inSub(sto[e.slabID], e) && valueRoot(key) != sto[e.slabID] && valueRoot(value) != sto[e.slabID]
@@ -125,6 +146,8 @@ package atree
 
 //@ # removal: a group left with one plain element collapses to that element, and the slab that held the group is removed from storage
 //@ func (e *externalCollisionGroup) Remove(storage, digester, level, hkey, comparator, key) (k, v, newElem, err)  serves C02 C09 C12 C18
+//@   # the request is handed down unchanged (C02: the routed child / element answers for the caller's key and value)
+//@   before[C02] MapDataSlab.Remove: arg_recv == sto[e.slabID] && arg_level == old(level) + 1 && arg_storage == storage && arg_digester == digester && arg_comparator == comparator && arg_key == key
 //@   requires e != nil && storage != nil && digester != nil && comparator != nil && level <= 1000
 //@   assume (is(sto[e.slabID], *MapDataSlab) ==> wfMDSG(as(sto[e.slabID], *MapDataSlab)) && as(sto[e.slabID], *MapDataSlab).header.size <= 4000000000 &&
 //@        as(sto[e.slabID], *MapDataSlab).header.slabID == e.slabID) && !inSub(sto[e.slabID], e)
